@@ -509,6 +509,23 @@ void move_object(Obj& o, bool assign) {
   }
 }
 
+// move assignment between two live objects of one kind swaps their state (documented by the
+// implementation: operator=(&&) swaps id / offset / storage); the models swap with them
+bool swap_with_peer(Obj& o, Obj& peer) {
+  if (o.kind != peer.kind || &o == &peer) return false;
+  switch (o.kind) {
+    case K_ADDER: *o.adder = std::move(*peer.adder); break;
+    case K_ETL: *o.etl = std::move(*peer.etl); break;
+    case K_CETL: *o.cetl = std::move(*peer.cetl); break;
+    default: return false;
+  }
+  std::swap(o.sum, peer.sum);
+  std::swap(o.num, peer.num);
+  std::swap(o.cells, peer.cells);
+  std::swap(o.touched, peer.touched);
+  return true;
+}
+
 void run_case(Chooser& c) {
   World world;
   W = &world;
@@ -528,6 +545,7 @@ void run_case(Chooser& c) {
   dsched::describe("objs[");
   for (int i = 0; i < nobj; i++) {
     Kind k = (Kind)c.below(K_COUNT);
+    if (i > 0 && c.chance(1, 3)) k = world.objs[0]->kind;  // instances of one kind share storage / can be swapped
     world.objs.emplace_back(construct(k));
     dsched::describe("%s%s", i ? "," : "", kind_name[k]);
     dsched::label(kind_name[k]);
@@ -541,7 +559,7 @@ void run_case(Chooser& c) {
     // ---- structural operations
     int nstruct = ph == 0 ? 0 : c.range(0, 3);
     for (int s = 0; s < nstruct; s++) {
-      int what = (int)c.below(5);
+      int what = (int)c.below(6);
       size_t j = c.below((uint32_t)world.objs.size());
       Obj& o = *world.objs[j];
       world.structural++;
@@ -556,11 +574,33 @@ void run_case(Chooser& c) {
         check_fresh(*world.objs[j], "object constructed after a destroyed one");
       } else if (what == 2) {
         if (o.kind == K_ADDER || o.kind == K_ETL || o.kind == K_CETL) {
-          bool assign = c.flip();
-          dsched::describe("move%s(%s#%d) ", assign ? "=" : "", kind_name[o.kind], o.serial);
-          move_object(o, assign);
-          dsched::label(assign ? "move_assign" : "move_construct");
-          check_quiescent(o, "after move", &c);
+          int how = (int)c.below(4);
+          Obj* peer = nullptr;
+          if (how >= 2)
+            for (auto& x : world.objs)
+              if (x.get() != &o && x->kind == o.kind) peer = x.get();
+          if (peer) {
+            dsched::describe("swap(%s#%d,%s#%d) ", kind_name[o.kind], o.serial, kind_name[peer->kind], peer->serial);
+            // the main thread uses the object right before and both objects right after the swap: its
+            // thread-local cache entry (keyed by instance id) must follow the state that moved
+            auto main_count = [&](Obj& x) {
+              for (auto& ob : world.objs) { ob->started_sum = ob->sum; ob->started_num = ob->num; ob->started_has = ob->has; ob->started_ext = ob->ext; }
+              count_op(x, pick_value(c, x.kind, false));
+            };
+            bool around = c.chance(2, 3);
+            if (around) main_count(o);
+            swap_with_peer(o, *peer);
+            if (around) { main_count(o); main_count(*peer); }
+            dsched::label("move_swap_peers");
+            check_quiescent(o, "after move assignment between live objects", &c);
+            check_quiescent(*peer, "after move assignment between live objects", &c);
+          } else {
+            bool assign = (how & 1) != 0;
+            dsched::describe("move%s(%s#%d) ", assign ? "=" : "", kind_name[o.kind], o.serial);
+            move_object(o, assign);
+            dsched::label(assign ? "move_assign" : "move_construct");
+            check_quiescent(o, "after move", &c);
+          }
         }
       } else if (what == 3) {
         if (o.kind == K_ADDER) {
@@ -576,8 +616,17 @@ void run_case(Chooser& c) {
           dsched::label("extreme_reset");
           check_quiescent(o, "after reset (new period)", &c);
         }
+      } else if (what == 5) {
+        // the main thread lives across every structural operation: its thread-local cache entries survive them
+        for (auto& ob : world.objs) { ob->started_sum = ob->sum; ob->started_num = ob->num; ob->started_has = ob->has; ob->started_ext = ob->ext; }
+        long v = pick_value(c, o.kind, false);
+        dsched::describe("main:%s#%d<<%ld ", kind_name[o.kind], o.serial, v);
+        count_op(o, v);
+        dsched::label("main_counts");
+        check_quiescent(o, "after the main thread counted", &c);
       } else if (world.objs.size() < 5) {
         Kind k = (Kind)c.below(K_COUNT);
+        if (c.chance(1, 3)) k = o.kind;  // a second instance of an existing kind: shared storage, peers for swaps
         dsched::describe("new(%s) ", kind_name[k]);
         world.objs.emplace_back(construct(k));
         dsched::label(kind_name[k]);
